@@ -39,7 +39,7 @@ VARIANTS = [
          [(PM, "        elif self.kind == ParamType.REGISTER:\n            if isinstance(value, Register):\n                pass\n            elif isinstance(value, AnnotatedValue) and value.kind in (\n                ParamType.REGISTER,\n                ParamType.NONE,\n            ):\n                pass\n            else:\n                raise JaqalError(\n                    f\"Type-checking failed: parameter {self.name}={value} does not have type {self.kind}.\"\n                )\n", "")],
          ("C14.3", "kind:REGISTER"), P),
     fire("c14-float-branch-accepts-anything",
-         [(PM, "                ParamType.INT,\n                ParamType.FLOAT,\n                ParamType.NONE,\n            ):\n                pass\n            else:\n                raise JaqalError(\n                    f\"Type-checking failed: parameter {self.name}={value} does not have type {self.kind}.\"\n                )", "                ParamType.INT,\n                ParamType.FLOAT,\n                ParamType.NONE,\n            ):\n                pass")],
+         [(PM, "                if isinstance(number, Integral):\n                    self._check_float_range(number, value)\n            else:\n                raise JaqalError(\n                    f\"Type-checking failed: parameter {self.name}={value} does not have type {self.kind}.\"\n                )", "                if isinstance(number, Integral):\n                    self._check_float_range(number, value)")],
          ("C14.3", "kind:FLOAT"), P),
     fire("c14-index-anything",
          [(CB, "        if not isinstance(built_identifier, (Register, Parameter)):\n            raise JaqalError(f\"Cannot index {identifier}: it is not a register\")\n", "")],
